@@ -752,3 +752,39 @@ class CodecsAreStateless(ScanCheck):
                             {'staticmethod': static, 'foreign_names': str(foreign), 'params': str(sorted(params))}))
         out.append(('handlers_found', n >= 2, {'n': n}))
         return out
+
+
+@register
+class UnreadBodyClosesTheConnection(ScanCheck):
+    id = 'C17.unreadable_request_closes_the_connection'
+    prop = 'C17'
+    doc = ('do_POST: the request body is read inside one try block (self._read_request()); EVERY handler of that try - '
+           'whatever exception class it catches (bad length, broken chunk framing, unsupported or corrupt content coding) - '
+           'sets close_connection = True before it answers: after a failed read the position in the stream is unknown, '
+           'bytes of the unread body must never be parsed as the next request of a kept-alive connection')
+
+    def scan(self, repo):
+        mod = repo.module('sdc11073.httpserver.httprequesthandler')
+        cd = mod.classes['DispatchingRequestHandler']
+        fn = next((f for f in cd.body if isinstance(f, _ast.FunctionDef) and f.name == 'do_POST'), None)
+        if fn is None:
+            return [('do_POST_found', False, {})]
+        tries = [t for t in _ast.walk(fn) if isinstance(t, _ast.Try)
+                 and any(isinstance(c, _ast.Call) and _ast.unparse(c.func) == 'self._read_request' for s in t.body for c in _ast.walk(s))]
+        reads = [c for c in _ast.walk(fn) if isinstance(c, _ast.Call) and _ast.unparse(c.func) == 'self._read_request']
+        out = [('body_is_read_once_inside_a_try_block', len(tries) == 1 and len(reads) == 1, {'tries': len(tries), 'reads': len(reads)})]
+        if len(tries) != 1:
+            return out
+        bad = []
+        for h in tries[0].handlers:
+            closes = any(isinstance(s, _ast.Assign) and _ast.unparse(s.targets[0]) == 'self.close_connection'
+                         and isinstance(s.value, _ast.Constant) and s.value.value is True for s in h.body)
+            answers = any(isinstance(c, _ast.Call) and _ast.unparse(c.func) in ('self._send_plain_response', 'self.send_response', 'self.send_error')
+                          for s in h.body for c in _ast.walk(s))
+            leaves = any(isinstance(s, (_ast.Return, _ast.Raise)) for s in h.body)
+            if not (closes and answers and leaves):
+                bad.append((_ast.unparse(h.type) if h.type is not None else 'bare', closes, answers, leaves))
+        out.append(('every_failed_read_closes_the_connection_and_answers', bool(tries[0].handlers) and not bad, {'handlers': str(bad)}))
+        catch_all = any(h.type is None or _ast.unparse(h.type) in ('Exception', 'BaseException') for h in tries[0].handlers)
+        out.append(('every_exception_of_the_read_is_handled', catch_all, {}))
+        return out
